@@ -62,7 +62,8 @@ type xspec struct {
 	Body   int     `json:"body,omitempty"`   // request body size
 	ReqChk bool    `json:"req_chunked,omitempty"`
 	Status int     `json:"status,omitempty"` // status: origin status; connect-reject: the upstream proxy's answer
-	End    string  `json:"end,omitempty"`    // how the client ends a tunnel / abort: "close" | "fin" | "rst"
+	End    string  `json:"end,omitempty"`    // how the client ends a tunnel / abort: "close" | "fin" | "rst"; upgrade also "origin" (the origin finishes first)
+	Req    string  `json:"req,omitempty"`    // upgrade: how the request spells its version and Connection field(s) (upgradeReqs); "" = HTTP/1.1, Connection: Upgrade
 	Fault  string  `json:"fault,omitempty"`  // dial-then-fail kinds (dialfail.go): what goes wrong after the dial
 	Via    string  `json:"via,omitempty"`    // dial-then-fail kinds: which upstream proxy (hup = http, tup = https, ptup, utup)
 	Inner  []xspec `json:"inner,omitempty"`  // mitm: exchanges inside the TLS session
@@ -96,12 +97,47 @@ func terminal(kind string) bool {
 }
 
 // knownClass decides the recorded defect class from the input alone. No class is recorded for the
-// rounds any more: the transport-level CONNECT rejection (F12) and the CONNECT — the client's, or the
+// rounds any more: the transport-level CONNECT rejection (F12), the CONNECT — the client's, or the
 // proxy transport's own — that the upstream proxy answers with 101 (F40, class
-// "connect-rejection-status-101") are repaired; their inputs are generated on every run (run.go:
-// targets "f12" and "f40") and a failure on them is a violation.
+// "connect-rejection-status-101") and the upgrade request that also asks to close the connection (F52, class
+// "upgrade-with-close-never-reported") are repaired; their inputs are generated on every run (run.go:
+// targets "f12", "f40" and "f52") and a failure on them is a violation.
 func knownClass(rc *roundCase) string {
 	return ""
+}
+
+// upgradeReq is one way to ask for a protocol switch. closes: http.ReadRequest sets Request.Close for it (the
+// close connection option, or HTTP/1.0 without keep-alive). The 101 that answers it opens a tunnel all the same,
+// and the exchange is reported when the tunnel is closed (the repaired F52, class
+// "upgrade-with-close-never-reported": the 101 went out with "Connection: close", the connection was closed
+// instead of tunnelled and Trace.WroteResponse was never called).
+type upgradeReq struct {
+	name, proto string
+	conn        []string // one Connection field line each
+	closes      bool
+}
+
+var upgradeReqs = []upgradeReq{
+	{"", "HTTP/1.1", []string{"Upgrade"}, false},
+	{"upgrade,close", "HTTP/1.1", []string{"Upgrade, close"}, true},
+	{"close,upgrade", "HTTP/1.1", []string{"close, Upgrade"}, true},
+	{"spelling", "HTTP/1.1", []string{"upgrade,CLOSE"}, true},
+	{"two-lines", "HTTP/1.1", []string{"Upgrade", "close"}, true},
+	{"two-lines-close-first", "HTTP/1.1", []string{"Close", "Upgrade"}, true},
+	{"http/1.0", "HTTP/1.0", []string{"Upgrade"}, true},
+	{"http/1.0-close", "HTTP/1.0", []string{"Upgrade, close"}, true},
+	{"http/1.0-keep-alive", "HTTP/1.0", []string{"keep-alive, Upgrade"}, false},
+	{"keep-alive,upgrade", "HTTP/1.1", []string{"keep-alive, Upgrade"}, false},
+}
+
+func upgradeReqOf(name string) upgradeReq {
+	for _, v := range upgradeReqs {
+		if v.name == name {
+			return v
+		}
+	}
+	core.Fatalf("C13: unknown upgrade request form %q", name)
+	return upgradeReq{}
 }
 
 // connect101 names the shape of a CONNECT answered 101 by an upstream proxy ("" if x is none): whose CONNECT it
@@ -219,6 +255,37 @@ func echoLoop(pc *rig.PeerConn) {
 	}
 }
 
+func queryStr(target, key string) string {
+	if i := strings.Index(target, "?"); i >= 0 {
+		if q, err := url.ParseQuery(target[i+1:]); err == nil {
+			return q.Get(key)
+		}
+	}
+	return ""
+}
+
+// echoN echoes the first n bytes and returns: the origin finishes the tunnel.
+func echoN(pc *rig.PeerConn, n int) {
+	buf := make([]byte, 32<<10)
+	pc.SetReadDeadline(time.Now().Add(ioTimeout))
+	for n > 0 {
+		k := len(buf)
+		if k > n {
+			k = n
+		}
+		m, err := pc.BR.Read(buf[:k])
+		if m > 0 {
+			if _, werr := pc.Write(buf[:m]); werr != nil {
+				return
+			}
+			n -= m
+		}
+		if err != nil {
+			return
+		}
+	}
+}
+
 func queryInt(target, key string, dflt int) int {
 	if i := strings.Index(target, "?"); i >= 0 {
 		if q, err := url.ParseQuery(target[i+1:]); err == nil {
@@ -321,6 +388,11 @@ func (w *world) originRespond(pc *rig.PeerConn, ex *rig.Exchange) bool {
 		return false
 	case p == "/upgrade":
 		pc.Write([]byte("HTTP/1.1 101 Switching Protocols\r\nConnection: Upgrade\r\nUpgrade: websocket\r\n\r\n"))
+		if queryStr(req.Target, "end") == "origin" {
+			// the origin ends the tunnel: it echoes what the client is scripted to send and closes
+			echoN(pc, queryInt(req.Target, "n", 0))
+			return false
+		}
 		echoLoop(pc)
 		return false
 	}
@@ -659,10 +731,14 @@ func connClose(m *rig.Msg) bool {
 	return m.Proto == "HTTP/1.0" || m.Proto == "HTTP/0.0"
 }
 
-// request renders a request.
+// request renders an HTTP/1.1 request.
 func request(method, target, host string, auth bool, extra []string, body []byte, chunked bool) []byte {
+	return requestProto("HTTP/1.1", method, target, host, auth, extra, body, chunked)
+}
+
+func requestProto(proto, method, target, host string, auth bool, extra []string, body []byte, chunked bool) []byte {
 	var b bytes.Buffer
-	fmt.Fprintf(&b, "%s %s HTTP/1.1\r\nHost: %s\r\n", method, target, host)
+	fmt.Fprintf(&b, "%s %s %s\r\nHost: %s\r\n", method, target, proto, host)
 	if auth {
 		b.WriteString(authHeader)
 	}
@@ -895,22 +971,43 @@ func (rr *roundRun) runExchange(cl *cli, x *xspec) (alive bool) {
 		return rr.f12(cl, "https://"+host+"/x", host, x)
 
 	case "upgrade":
-		target, host := cl.target("origin.test", "/upgrade")
-		cl.c.Send(request("GET", target, host, true, []string{"Connection: Upgrade", "Upgrade: websocket"}, nil, false), nil)
+		v := upgradeReqOf(x.Req)
+		path, kind := "/upgrade", "upgrade/"
+		if x.End == "origin" {
+			path = fmt.Sprintf("/upgrade?end=origin&n=%d", x.Size)
+		}
+		if v.closes {
+			kind = "upgrade/reqclose/" // the model's path carries the request's close flag
+		}
+		target, host := cl.target("origin.test", path)
+		var fields []string
+		for _, c := range v.conn {
+			fields = append(fields, "Connection: "+c)
+		}
+		cl.c.Send(requestProto(v.proto, "GET", target, host, true, append(fields, "Upgrade: websocket"), nil, false), nil)
 		m, err := cl.c.ReadResponse("GET", ioTimeout)
 		if m == nil || m.Status == 0 {
-			rr.add(xres{Kind: x.Kind, Path: pathAtom("upgrade/writeError", "GET", 101, true), Method: "GET", Failed: fmt.Sprintf("no response: %v", err)})
+			rr.add(xres{Kind: x.Kind, Path: pathAtom(kind+"writeError", "GET", 101, true), Method: "GET", Failed: fmt.Sprintf("no response: %v", err)})
 			return false
 		}
 		if m.Status != 101 {
 			rr.add(xres{Kind: x.Kind, Path: pathAtom("response", "GET", m.Status, false), Method: "GET", Status: m.Status, Failed: "no protocol switch"})
 			return false
 		}
-		r := xres{Kind: x.Kind, Path: pathAtom("upgrade/closed", "GET", 101, false), Method: "GET", Status: 101}
+		r := xres{Kind: x.Kind, Path: pathAtom(kind+"closed", "GET", 101, false), Method: "GET", Status: 101}
 		if err := echoRound(cl, x.Size); err != nil {
 			r.Failed = err.Error()
 		}
-		endTunnel(cl, x.End)
+		if x.End == "origin" {
+			// the origin has closed after its echo: the proxy relays the end of its stream, the client follows
+			cl.c.Conn.SetReadDeadline(time.Now().Add(ioTimeout))
+			if n, err := io.Copy(io.Discard, cl.c.BR); (err != nil || n != 0) && r.Failed == "" {
+				r.Failed = fmt.Sprintf("the origin closed the tunnel after its echo; the client then read %d more bytes and %v instead of end-of-stream", n, err)
+			}
+			cl.c.Close()
+		} else {
+			endTunnel(cl, x.End)
+		}
 		rr.add(r)
 		return false
 
@@ -1154,6 +1251,16 @@ func runRound(ctx *core.Ctx, w *world, rc *roundCase) {
 			ctx.Count("kind/" + x.Kind)
 			if x.Kind == "status" && x.Status == 101 {
 				ctx.Count("regression/f42-101-not-a-switch")
+			}
+			if x.Kind == "upgrade" && x.Req != "" {
+				lab := "keeps"
+				if upgradeReqOf(x.Req).closes {
+					lab = "asks-to-close"
+				}
+				ctx.Count(fmt.Sprintf("regression/f52-upgrade-request-%s/%s/handler=%v", lab, x.Req, rc.Handler))
+			}
+			if x.Kind == "upgrade" {
+				ctx.Count("upgrade-tunnel-ended-by/" + x.End)
 			}
 			if sh := connect101(&x); sh != "" {
 				ctx.Count(fmt.Sprintf("regression/f40-connect-answered-101/%s/handler=%v", sh, rc.Handler))
